@@ -1,5 +1,12 @@
 package main
 
+import (
+	"bytes"
+	"context"
+	"github.com/ddddddO/gtree"
+	"strings"
+)
+
 // C05: walk visits the rendered tree; callback failure / iterator break at every position.
 
 func init() { props["c05"] = runC05 }
@@ -60,6 +67,21 @@ func runC05(ctx *Ctx) *Report {
 			cases = append(cases, c)
 		}
 	}
+	// whatever error the callback returns – also the sentinels other walkers give a meaning to – ends the walk and comes back
+	enumForests(4, []string{"a", "b"}, func(f []*Tree) {
+		t := &Tree{Name: "r", Kids: f}
+		doc := spell([]*Tree{t}, plainSpelling)
+		for ki, kind := range []string{"skipdir", "skipall", "eof", "wrapped-skipdir", "canceled"} {
+			for _, at := range []int{0, 1, 3} {
+				c := newCase("rootwalk")
+				c.Tree, c.Fmt, c.FailAt, c.CbErr = t.Enc(), fmtDefault, at, kind
+				cases = append(cases, c)
+				c2 := newCase("walk")
+				c2.Doc, c2.DocText, c2.Fmt, c2.FailAt, c2.CbErr, c2.Tree, c2.Alias = hx(doc), docText(doc), fmtDefault, at, kind, t.Enc(), ki%2 == 0
+				cases = append(cases, c2)
+			}
+		}
+	})
 	// large shapes; callbacks that use the library themselves while the walk is in progress
 	for bi, name := range []string{"deep", "wide", "many-roots", "long-names"} {
 		f := bigShapes()[name]
@@ -91,5 +113,57 @@ func runC05(ctx *Ctx) *Report {
 		cases = append(cases, c2)
 	})
 	runCases(rep, cases, ctx.Workers, func(c Case) bool { return c.Note != "" || nonTrivialEnc(c.Tree) })
+	// the same root through several operations with different branch strings, and an iterator that is created
+	// before the tree is finished: every walk shows the tree as it is, drawn with the walk's own options
+	{
+		m := NewModel()
+		defer m.Close()
+		fms := allFormats()
+		k := 0
+		enumForests(4, []string{"a", "b"}, func(f []*Tree) {
+			k++
+			if k%3 != 0 {
+				return
+			}
+			t := &Tree{Name: "r", Kids: f}
+			fa, fb := fms[k%len(fms)], fms[(k/3+1)%len(fms)]
+			root := buildRoot(t)
+			walk := func(opts []gtree.Option) string {
+				var vs []string
+				err := gtree.WalkFromRoot(root, func(wn *gtree.WalkerNode) error { vs = append(vs, showVisit(wn)); return nil }, opts...)
+				return "v=" + showVisits(vs) + " e=" + classify(err)
+			}
+			iterate := func(seq func(func(*gtree.WalkerNode, error) bool)) string {
+				var vs []string
+				var ierr error
+				for wn, err := range seq {
+					if err != nil {
+						ierr = err
+						break
+					}
+					vs = append(vs, showVisit(wn))
+				}
+				return "v=" + showVisits(vs) + " e=" + classify(ierr)
+			}
+			var diffs []Diff
+			wantA := m.Ask("rootwalk " + fa.enc() + " n " + addMirror(t).Enc())
+			diffs = append(diffs, cmp("walk(A)", walk(fmtOpts(fa)), wantA)...)
+			var sink bytes.Buffer
+			gtree.OutputFromRoot(&sink, root, fmtOpts(fb)...)
+			diffs = append(diffs, cmp("walk(A) after text output with other branch strings", walk(fmtOpts(fa)), wantA)...)
+			gtree.WalkFromRoot(root, func(*gtree.WalkerNode) error { return nil }, append(fmtOpts(fb), gtree.WithMassive(context.Background()))...)
+			diffs = append(diffs, cmp("walk(A) after a massive walk with other branch strings", walk(fmtOpts(fa)), wantA)...)
+			diffs = append(diffs, cmp("iterator(A) after all that", iterate(gtree.WalkIterFromRoot(root, fmtOpts(fa)...)), strings.Replace(m.Ask("rootiter "+fa.enc()+" n "+addMirror(t).Enc()), "", "", 0))...)
+			// an iterator made now, ranged after one more Add and another operation
+			seq := gtree.WalkIterFromRoot(root, fmtOpts(fa)...)
+			root.Add("late").Add("later")
+			t2 := &Tree{Name: t.Name, Kids: append(append([]*Tree{}, t.Kids...), &Tree{Name: "late", Kids: []*Tree{{Name: "later"}}})}
+			gtree.OutputFromRoot(&sink, root, fmtOpts(fb)...)
+			diffs = append(diffs, cmp("iterator(A) created before an Add and another operation, ranged after", iterate(seq), m.Ask("rootiter "+fa.enc()+" n "+addMirror(t2).Enc()))...)
+			diffs = append(diffs, cmp("the same iterator value ranged again", iterate(seq), m.Ask("rootiter "+fa.enc()+" n "+addMirror(t2).Enc()))...)
+			rep.Record(map[string]any{"kind": "root-reuse", "tree": t.Enc(), "fmtA": fa, "fmtB": fb}, "reuse:"+t.Enc()+fmtInt(k), true, diffs)
+			rep.Count("root-reuse")
+		})
+	}
 	return rep
 }
